@@ -179,6 +179,25 @@ func c12Applies(change string, src string) bool {
 }
 
 func c12Gen(tier string, emit func(any)) {
+	// a file of the run does not parse (real binary: the exit path of runMain is part of what is observed)
+	for _, p := range c12Patches() {
+		if len(p.files) != 1 || (p.id != "A" && p.id != "A+B" && p.id != "stmt-elision") {
+			continue
+		}
+		for _, others := range [][]string{{"m1.go"}, {"m1.go", "m2.go"}, {"n.go", "m2.go"}, {"zlast.go"}} {
+			files := map[string]string{"broken.go": "package a\n\nfunc broken( {\n"}
+			for _, n := range others {
+				if n == "zlast.go" {
+					files[n] = c12Sources["m1.go"]
+				} else {
+					files[n] = c12Sources[n]
+				}
+			}
+			for _, v := range []bool{false, true} {
+				emit(&C12Case{PatchID: p.id, Patches: p.files, Files: files, Args: "dot", V: v})
+			}
+		}
+	}
 	for _, p := range c12LayoutPatches(tier) {
 		for mask := 1; mask < 8; mask++ {
 			if mask > 4 && mask != 7 {
@@ -265,8 +284,77 @@ func c12SplitChanges(p string) []string {
 	return out
 }
 
+// c12RunBroken: one of the files does not parse, so every mode exits non-zero; what the real binary prints for the
+// healthy files with --print-only must still be exactly what the default mode writes for them.
+func c12RunBroken(env *core.Env, c *C12Case) core.Outcome {
+	out := core.Outcome{Nontrivial: true, Class: "broken-file", Transitions: 2}
+	bad := func(key, f string, a ...any) core.Outcome {
+		out.Violation = fmt.Sprintf("[patch %s, files with broken.go, v=%v] ", c.PatchID, c.V) + fmt.Sprintf(f, a...)
+		out.FindingKey = key
+		return out
+	}
+	var names []string
+	for n := range c.Files {
+		names = append(names, n)
+	}
+	sort.Strings(names)
+	do := func(mode ...string) (drive.Result, map[string]string) {
+		tree := map[string]string{"p0.patch": c.Patches[0]}
+		for n, s := range c.Files {
+			tree["t/"+n] = s
+		}
+		sb := newSandbox(env, "c12b", tree)
+		defer sb.remove()
+		args := append([]string{"-p", sb.path("p0.patch")}, mode...)
+		if c.V {
+			args = append(args, "-v")
+		}
+		r := sb.run(true, "t", append(args, "."), "")
+		r.Stdout = strings.ReplaceAll(r.Stdout, sb.Root, "$ROOT")
+		content := map[string]string{}
+		for _, n := range names {
+			content[n] = sb.read("t/" + n)
+		}
+		return r, content
+	}
+	w, W := do()
+	if w.Exit == 0 {
+		return bad("exit", "a file does not parse but the default mode exits 0")
+	}
+	p, P := do("--print-only")
+	if p.Exit == 0 {
+		return bad("exit", "a file does not parse but --print-only exits 0")
+	}
+	rest := p.Stdout
+	for _, n := range names {
+		if P[n] != c.Files[n] {
+			return bad("dryrun-wrote/print", "--print-only modified %s", n)
+		}
+		if n == "broken.go" {
+			continue
+		}
+		if !strings.HasPrefix(rest, W[n]) {
+			return bad("print-differs", "--print-only output for %s differs from the bytes written by the default mode (a file of the run does not parse):\n got %q\nwant %q", n, rest, W[n])
+		}
+		rest = rest[len(W[n]):]
+		if c.V {
+			var ok bool
+			if rest, ok = cutLogLine(rest, "$ROOT/t/"+n); !ok {
+				return bad("print-differs", "--print-only -v: expected a log line about %s, remaining output %q", n, rest)
+			}
+		}
+	}
+	if strings.TrimSpace(rest) != "" && !c.V {
+		return bad("print-differs", "--print-only printed more than the healthy files' bytes: %q", rest)
+	}
+	return out
+}
+
 func c12Run(env *core.Env, ci any) core.Outcome {
 	c := ci.(*C12Case)
+	if _, ok := c.Files["broken.go"]; ok {
+		return c12RunBroken(env, c)
+	}
 	names := make([]string, 0, len(c.Files))
 	for n := range c.Files {
 		names = append(names, n)
